@@ -36,6 +36,59 @@ def run(chk: Check, proj: Project) -> None:
     s1_s3(chk, proj, m, f)
     s4(chk, proj, m, f)
     s5(chk, proj)
+    s6(chk, proj, m, f)
+
+
+def s6(chk: Check, proj: Project, m, f) -> None:
+    chk.rule("S6", "every token is shifted before the hand-over decision; the quote-aware scanner keeps every consumed character except the closing `%}` in the contents; a tag that is never closed raises")
+    from ..cfg import CFG
+
+    cfg = CFG(f)
+    dom = cfg.dominators()
+    shifts = [n for n in cfg.nodes if n.kind == "stmt" and isinstance(n.ast, (ast.Assign, ast.AugAssign)) and norm(n.ast.targets[0] if isinstance(n.ast, ast.Assign) else n.ast.target).endswith((".lineno", ".position"))]
+    hand = [n for n in cfg.nodes if n.kind == "stmt" and isinstance(n.ast, ast.Assign) and isinstance(n.ast.value, ast.Name) and any(isinstance(a, ast.If) and any(isinstance(x, ast.Break) for x in a.body) for a in ancestors(n.ast)) and any(isinstance(a, ast.For) for a in ancestors(n.ast))]
+    if len(shifts) < 2 or not hand:
+        chk.undecided("S6", "util.template_parser:parse_template:shift-before-hand-over", m.loc(f), "shift statements / hand-over assignment not found")
+    else:
+        tok = norm(hand[0].ast.value)
+        mine = [s for s in shifts if norm(s.ast.targets[0] if isinstance(s.ast, ast.Assign) else s.ast.target).startswith(tok + ".")]
+        kinds = {norm(s.ast.targets[0] if isinstance(s.ast, ast.Assign) else s.ast.target).rsplit(".", 1)[1] for s in mine if cfg.dominates(s, hand[0], dom)}
+        ok = kinds == {"lineno", "position"}
+        chk.ob("S6", "util.template_parser:parse_template:shift-before-hand-over", m.loc(hand[0].ast), ok,
+               "line number and position of a token are shifted before it can be handed to the quote-aware scanner" if ok else
+               f"the token handed to the quote-aware scanner is not shifted in {sorted({'lineno', 'position'} - kinds)} before the hand-over: the fixed token (and every later token through the offset) reports a wrong line / position")
+    dm, df = proj.func("util.template_parser", "_detailed_tag_parser")
+    loop = next((x for x in body_walk(df) if isinstance(x, ast.While)), None)
+    if loop is None:
+        raise AnalysisError("_detailed_tag_parser: main loop vanished")
+    rc = next((norm(c.func.value) for c in calls(df, "join") if False), None)
+    # the accumulator: the list that is joined into the token contents
+    acc = None
+    for c in calls(df, "join"):
+        if c.args and isinstance(c.args[0], ast.Name):
+            acc = c.args[0].id
+    lost = []
+    for c in [x for x in calls(loop) if isinstance(x.func, ast.Name) and x.func.id in ("take_char", "take_until_any")]:
+        par = parent(c)
+        st = enclosing_stmt(c)
+        kept = False
+        if isinstance(par, ast.Call) and norm(par.func) == f"{acc}.append":
+            kept = True
+        elif isinstance(st, ast.Assign) and isinstance(st.targets[0], ast.Name):
+            v = st.targets[0].id
+            blk = next((b for a in ancestors(st) for b in (getattr(a, "body", None), getattr(a, "orelse", None)) if isinstance(b, list) and st in b), [])
+            kept = any(isinstance(s2, ast.Expr) and isinstance(s2.value, ast.Call) and norm(s2.value.func) == f"{acc}.append" and s2.value.args and norm(s2.value.args[0]) == v for s2 in blk)
+        closing = any(isinstance(a, ast.If) and any(isinstance(x, ast.Break) for x in a.body) and any(st is b or any(st is y for y in ast.walk(b)) for b in a.body) for a in ancestors(c))
+        if not kept and not closing:
+            lost.append(c)
+    chk.ob("S6", "util.template_parser:_detailed_tag_parser:consumed-text-kept", dm.loc(lost[0]) if lost else dm.loc(loop), not lost and acc is not None,
+           f"every consumed piece inside the tag is appended to `{acc}` (only the closing `%}}` is dropped)" if not lost else
+           f"`{short(lost[0])}` consumes text of the tag without appending it to `{acc}`: the token's contents no longer equal its span without delimiters")
+    els = loop.orelse
+    okr = bool(els) and any(isinstance(x, ast.Raise) and "TemplateSyntaxError" in norm(x) for x in els)
+    chk.ob("S6", "util.template_parser:_detailed_tag_parser:unterminated-tag-raises", dm.loc(loop), okr,
+           "running out of text before the closing `%}` raises TemplateSyntaxError (while ... else)" if okr else
+           "the scanner no longer raises when the text ends before the tag is closed: it returns a BLOCK token that runs to the end of the source and swallows all following text")
 
 
 def s1_s3(chk: Check, proj: Project, m, f) -> None:
